@@ -314,7 +314,7 @@ pub fn run(ctx: &Ctx, started: Instant) -> i32 {
         run_list_bed("C17", vec![false, true], &mut st, |r| json!({"after_close": r}), run_after_close);
         stats.merge(st);
     }
-    let per_shard = ctx.tier.pick(1_500u32, 30_000);
+    let per_shard = ctx.tier.pick(8_000u32, 60_000);
     let rnd = par_shards(WORKERS, |shard| {
         let mut st = Stats::default();
         run_proptest_bed("C17", ctx.sub_seed("rand", shard), per_shard, &case_strategy(shard % 2 == 0), &mut st, |c| json!({"case": c}), run_case);
